@@ -152,3 +152,11 @@ Theorem C01_premises_satisfiable :
   svd_ok OR 3 2 2 [[3;0];[0;2];[0;0]]%R ([[1;0];[0;1];[0;0]]%R, [3;2]%R, [[1;0];[0;1]]%R) /\ desc_nonneg 2 [3;2]%R.
 Proof. exact svd_ok_example. Qed.
 Print Assumptions C01_premises_satisfiable.
+
+(* the scores, components and variances a model reports are the ones its fit stored: no accessor, rotator or transform of the package works on them in place (every augmented assignment of the package, regenerated from the source by T7inplace, is one of the 14 known sites acting on fresh local
+   values of the numerical kernels) *)
+From XV Require Gen.T7inplace Proofs.C14_tie.
+Theorem C01_no_inplace_arithmetic_on_stored_arrays : List.length T7inplace.inplace_sites = 14%nat /\
+  forallb C14_tie.not_in_fit_algorithm T7inplace.inplace_sites = true.
+Proof. exact (conj (f_equal (@List.length _) C14_tie.inplace_sites_known) (f_equal (forallb _) C14_tie.inplace_sites_known)). Qed.
+Print Assumptions C01_no_inplace_arithmetic_on_stored_arrays.
